@@ -7,6 +7,8 @@ import (
 	"go/parser"
 	"go/token"
 	"go/types"
+	"os"
+	"path/filepath"
 	"runtime"
 	"runtime/debug"
 	"strings"
@@ -28,8 +30,40 @@ type Target struct {
 var srcImporterFset = token.NewFileSet()
 var sharedImporter = importer.ForCompiler(srcImporterFset, "source", nil)
 
-// ParseTarget parses and type-checks one file (imports resolved from GOROOT sources).
+var tempDir string
+
+// TempDir is the scratch directory target files are written to (ruleguard reads the analysed file
+// from disk to get its bytes); removed by Cleanup.
+func TempDir() string {
+	if tempDir == "" {
+		d, err := os.MkdirTemp("", "rgh-targets-")
+		if err != nil {
+			panic(err)
+		}
+		tempDir = d
+	}
+	return tempDir
+}
+
+func Cleanup() {
+	if tempDir != "" {
+		os.RemoveAll(tempDir)
+	}
+}
+
+var targetSeq int
+
+// ParseTarget writes src to a scratch file, parses and type-checks it (imports resolved from GOROOT sources).
 func ParseTarget(filename, src string) (*Target, error) {
+	targetSeq++
+	dir := filepath.Join(TempDir(), fmt.Sprint(targetSeq))
+	if err := os.MkdirAll(dir, 0o755); err != nil {
+		return nil, err
+	}
+	filename = filepath.Join(dir, filepath.Base(filename))
+	if err := os.WriteFile(filename, []byte(src), 0o644); err != nil {
+		return nil, err
+	}
 	fset := token.NewFileSet()
 	f, err := parser.ParseFile(fset, filename, src, parser.ParseComments)
 	if err != nil {
